@@ -18,6 +18,10 @@ CHECKS = {
             "hostile-input runtime monitor: recover around every public entry point, driver-side watchdog for non-termination, independent line-table check of every reported error position",
             "Valid generated programs, token-level mutations of them over the full token alphabet (every keyword and builtin name in every position), raw bytes and directed probes are fed to parser.ParseFile, File.String, Compiler.Compile+Bytecode+RemoveDuplicates, Script.Compile under random configurations (module maps incl. the input as its own module, 0/3/1000/1030 predeclared variables, file import, const-object limit) and as a module body. A panic or a watchdog firing is a violation; every position in a returned ErrorList/CompilerError is recomputed from an independent line table. Held on the inputs listed in evidence.",
             "Inputs <= 64 KiB. Non-termination = 90 s without progress on a case that normally takes milliseconds."),
+    "C05": ("exploration",
+            "hostile-workload runtime monitor: worker-side recover and watchdogs around Compiled.RunContext, post-run structural invariant walk of all globals (no Go-nil object), liveness probe of Get/Set/Clone/second RunContext, driver-side supervision of worker death, child-process probes for process-fatal inputs",
+            "Hostile programs (failure atoms for every operator x type pair, index/slice/selector misuse, call misuse, runaway recursion of several shapes, mutation while iterating, every builtin with every argument type and arity, extreme arguments, immutable writes; planted at top level, in closures, loops, call arguments and module functions; plus generated programs with 15% ill-typed operations) are executed through RunContext with instruction and allocation budgets. A panic reaching the host, a call that does not return, a Go-nil object reachable from the globals, a host-side read that panics, or a compiled object that cannot be used again is a violation; worker death is caught by the driver. Cyclic containers (recorded finding) are probed by exact inputs in a child process. Held on the programs listed in evidence.",
+            "Unbounded allocation is outside the claim. Known findings: the eight cyclic-container inputs in known_findings.jsonl."),
     "C06": ("exploration",
             "threshold and conservation monitors: allocation budgets swept 0..A+3 with A counted independently by the VM probe (instruction classification, not the VM's counter); reachable-value walk under small MaxStringLen/MaxBytesLen with boundary probes per producer; recursion probes through RunContext",
             "(a) For generated programs the unlimited run is observed by the probe, which counts tracked allocations by classifying completed instructions; every budget N = 0..A+3 and -1 is then run: below A the run must stop with ErrObjectAllocLimit having completed at most N allocations, from A on it must equal the unlimited run. (b) With small string/bytes maxima every core-language producer is driven across the boundary; over-long results must be refused with the limit sentinel, fitting ones produced, and after every run all values reachable from the globals are walked. (c) Recursion beyond the frame limit must end in ErrStackOverflow, beyond the operand stack in some error. Held on the cases listed in evidence.",
